@@ -8,6 +8,7 @@
                   P2  tempstore.ps.PutChangeSet(tempstore maps)       (atomic on the backend, no lock of s held)
                   P3  lock; ps := tempstore.ps; unlock
                 PersistSync = P1;P2;P3 without releasing the lock (one step)
+                PFail = the backend's PutChangeSet fails: the swapped-out maps are merged back (one step after P1)
      reader     Get  = one step (read lock held across the whole fall-through)                     (95-106)
                 Seek = two steps                                                                   (156-159, 194-224)
                   R1  rlock; snapshot of the matching items of the top maps; capture ps; runlock
@@ -23,7 +24,7 @@
 EXTENDS KVStore, Json
 
 CONSTANTS CKeys,        \* set of keys (byte strings with a common prefix: every Seek scans them all)
-          Readers, MaxWrites, MaxPersists, AllowSync, AllowDelete, BugNoTemp
+          Readers, MaxWrites, MaxPersists, AllowSync, AllowFail, AllowDelete, BugNoTemp
 
 VARIABLES mem,          \* top maps of s
           tmpOn, tmp,   \* tempstore installed as s.ps? / its (immutable) maps
@@ -70,6 +71,12 @@ P3 == /\ ppc = "written"
       /\ tmpOn' = FALSE /\ tmp' = EmptyMap /\ ppc' = "idle"
       /\ hist' = Append(hist, [a |-> "p3", r |-> 0, batch |-> <<>>, res |-> <<>>])
       /\ UNCHANGED <<mem, disk, rd, nw, np, views, bkeys>>
+(* the backend refuses the batch (PutChangeSet returns an error before writing anything): persist re-takes the lock,
+   copies the writes made in the meantime over the swapped-out maps and reinstalls those (memcached_store.go:427-435) *)
+PFail == /\ AllowFail /\ ppc = "swapped"
+         /\ mem' = Overlay(tmp, mem) /\ tmpOn' = FALSE /\ tmp' = EmptyMap /\ ppc' = "idle"
+         /\ hist' = Append(hist, [a |-> "pfail", r |-> 0, batch |-> <<>>, res |-> <<>>])
+         /\ UNCHANGED <<disk, rd, nw, np, views, bkeys>>
 PSync == /\ AllowSync /\ ppc = "idle" /\ np < MaxPersists /\ mem # EmptyMap
          /\ disk' = DiskApply(disk, mem) /\ mem' = EmptyMap /\ np' = np + 1
          /\ hist' = Append(hist, [a |-> "psync", r |-> 0, batch |-> <<>>, res |-> <<>>])
@@ -88,7 +95,7 @@ R2(r) == /\ rd[r].pc = "snap"
          /\ UNCHANGED <<mem, tmpOn, tmp, disk, ppc, nw, np, views, bkeys>>
 
 Next == \/ \E b \in Batches : \E dels \in (IF AllowDelete THEN SUBSET b ELSE {{}}) : Write(b, dels)
-        \/ P1 \/ P2 \/ P3 \/ PSync
+        \/ P1 \/ P2 \/ P3 \/ PSync \/ PFail
         \/ \E r \in Readers : R1(r) \/ R2(r)
 Spec == Init /\ [][Next]_vars
 
